@@ -25,9 +25,9 @@ def flush(n_requests=0):
 DEFAULT_CONF = "~;~;~;~;0;8192"
 
 
-def conf(pw=None, emb=None, mime=None, file=None, norp=False, limit=8192):
-    h = lambda x: "~" if x is None else hexs(x)
-    return ";".join([h(pw), h(emb), h(mime), h(file), "1" if norp else "0", str(limit)])
+def conf(pw=None, emb=None, mime=None, file=None, norp=False, limit=8192, fileack=False, rperr=None):
+    h = lambda x: "~" if x is None else ("-" if len(x) == 0 else hexs(x))
+    return ";".join([h(pw), h(emb), h(mime), h(file), "1" if norp else "0", str(limit), "1" if fileack else "0", "~" if rperr is None else str(rperr)])
 
 
 def spec(name, *args):
